@@ -49,3 +49,42 @@ pub fn ok(idv: Value, extra: Value) -> Value {
 }
 #[allow(dead_code)]
 pub fn j() -> Value { json!({}) }
+
+/// First difference between two JSON values as (path, left, right); None if equal.
+pub fn json_diff(a: &Value, b: &Value, path: &str) -> Option<(String, Value, Value)> {
+    match (a, b) {
+        (Value::Object(x), Value::Object(y)) => {
+            for (k, v) in x {
+                match y.get(k) {
+                    Some(w) => { if let Some(d) = json_diff(v, w, &format!("{path}/{k}")) { return Some(d); } }
+                    None => return Some((format!("{path}/{k}"), v.clone(), Value::Null)),
+                }
+            }
+            for (k, w) in y { if !x.contains_key(k) { return Some((format!("{path}/{k}"), Value::Null, w.clone())); } }
+            None
+        }
+        (Value::Array(x), Value::Array(y)) => {
+            for i in 0..x.len().min(y.len()) {
+                if let Some(d) = json_diff(&x[i], &y[i], &format!("{path}/{i}")) { return Some(d); }
+            }
+            if x.len() != y.len() { return Some((format!("{path}/len"), json!(x.len()), json!(y.len()))); }
+            None
+        }
+        _ => if a == b { None } else { Some((path.to_string(), trunc(a), trunc(b))) },
+    }
+}
+pub fn trunc(v: &Value) -> Value {
+    let s = v.to_string();
+    if s.len() > 200 { json!(format!("{}…", &s[..200])) } else { v.clone() }
+}
+/// Run `f` catching panics: Ok(v) | Err((msg, loc))
+pub fn guarded<T>(f: impl FnOnce() -> T) -> Result<T, String> {
+    match std::panic::catch_unwind(std::panic::AssertUnwindSafe(f)) {
+        Ok(v) => Ok(v),
+        Err(e) => {
+            let msg = if let Some(s) = e.downcast_ref::<&str>() { s.to_string() }
+                      else if let Some(s) = e.downcast_ref::<String>() { s.clone() } else { "?".into() };
+            Err(msg)
+        }
+    }
+}
